@@ -31,10 +31,72 @@ LISTED = ["missing_keyword", "missing_variable", "missing_term", "missing_operan
 GENERIC = ["delete", "duplicate", "swap", "substitute", "truncate", "insert", "any_prop"]
 
 
+LEX = ["tabs", "double", "lead_trail", "cr", "upper_kw", "title_kw", "glue_parens", "nbsp", "wide_space", "comment_tail", "comment_mid",
+       "num_format", "unicode_name", "long_name", "zero_width", "newline_mid"]
+NUM_FORMATS = ["1e0", "+1", ".5", "1.", "1_0", "0x1", "\uff11", "NaN", "nan", "-inf", "Infinity", "1e999", "1,0", "\u0663", "1e", "--1", "1.0.0", "0b1", "1j", "\u00bd", "1 .0"]
+
+
+def lexify(rng, words: list[str], kind: str | None) -> str:
+    """The lexical level of a rule text: how the same words may be written (or mangled) on their way through editors,
+    spreadsheets and platforms. Whatever the library makes of it - accept or reject - it must not fail internally."""
+    text = " ".join(words)
+    if not kind or not words:
+        return text
+    kw = {"if", "then", "is", "and", "or", "with"}
+    if kind == "tabs":
+        return "\t".join(words)
+    if kind == "double":
+        return "  ".join(words)
+    if kind == "lead_trail":
+        return "  \t" + text + " \t "
+    if kind == "cr":
+        return text + rng.choice(["\r", "\r\n", "\n"])
+    if kind == "upper_kw":
+        return " ".join(w.upper() if w in kw else w for w in words)
+    if kind == "title_kw":
+        return " ".join(w.title() if w in kw and rng.random() < 0.5 else w for w in words)
+    if kind == "glue_parens":
+        return text.replace("( ", "(").replace(" )", ")")
+    i = rng.randrange(len(words))
+    if kind in ("nbsp", "wide_space", "zero_width", "newline_mid"):
+        sep = {"nbsp": "\u00a0", "wide_space": "\u3000", "zero_width": "\u200b", "newline_mid": "\n"}[kind]
+        return " ".join(words[:i + 1]) + sep + " ".join(words[i + 1:])
+    if kind == "comment_tail":
+        return text + rng.choice([" # note", "# note", " #", " ## with 0.5"])
+    if kind == "comment_mid":
+        return " ".join(words[:i] + ["#"] + words[i:])
+    if kind == "num_format":
+        fmt = rng.choice(NUM_FORMATS)
+        if "with" in words:
+            j = words.index("with")
+            return " ".join(words[:j + 1] + [fmt] + words[j + 2:])
+        return text + " with " + fmt
+    names = [j for j, w in enumerate(words) if w not in kw and w not in ("(", ")") and w.isidentifier()]
+    if not names:
+        return text
+    j = rng.choice(names)
+    if kind == "unicode_name":
+        w = words[j]
+        k = rng.randrange(len(w))
+        return " ".join(words[:j] + [w[:k] + rng.choice(["\u0430", "\u00e9", "\uff41", "\u03b1", "\u0131", "\U0001d44e"]) + w[k + 1:]] + words[j + 1:])
+    if kind == "long_name":
+        return " ".join(words[:j] + [words[j] * 2000] + words[j + 1:])
+    raise AssertionError(kind)
+
+
+def with_lex(rng, mut: dict) -> dict:
+    if rng.random() < 0.25:
+        mut["lex"] = rng.choice(LEX)
+        if rng.random() < 0.5:
+            mut["generic"] = "none"  # the words of the valid rule, written differently
+    return mut
+
+
 def pick_generic(rng) -> str:
     # long_chain (one proposition chained 30 .. 2500 times) is rare: beyond ~1000 connectives it runs into known finding F1,
     # which ends the trace
-    return "long_chain" if rng.random() < 0.02 else rng.choice(GENERIC)
+    r = rng.random()
+    return "long_chain" if r < 0.02 else ("hollow" if r < 0.05 else rng.choice(GENERIC))
 WORDS = ["if", "then", "is", "and", "or", "with", "not", "very", "any", "somewhat", "(", ")", "0.5", "1", "-1", "nan", "inf", "zzz",
          "i0", "i1", "o0", "o1", "a", "b", "p", "q", "sin", "+", "*", ",", "pi", "~", "!", "^", "max", ":", "rule:", "x", "e", "%"]
 
@@ -153,6 +215,17 @@ def mutate_generic(rng, words: list[str], kind: str, vocabulary: list[str] | Non
                 while b < end and words[b] not in ("and", "or", ")", "then"):
                     b += 1
                 return words[:a] + [rng.choice(variables), "is"] + rng.choice([[], ["not"], ["very"]]) + ["any"] + words[b:]
+    if kind == "none":
+        return list(words)
+    if kind == "hollow":
+        # an antecedent (or consequent) made of punctuation only: non-empty text that yields no proposition at all
+        if "then" not in words:
+            return list(words)
+        end = words.index("then")
+        filler = rng.choice([["(", ")"], ["(", "(", ")", ")"], ["(", ",", ")"], [","], ["(", ")", "(", ")"]])
+        if rng.random() < 0.7:
+            return words[:1] + filler + words[end:]
+        return words[:end + 1] + filler
     fixed_n = None
     if kind.startswith("long_chain:"):
         kind, fixed_n = "long_chain", int(kind.split(":")[1])
@@ -255,6 +328,23 @@ def corrupt_text(text: str, c: dict) -> str:
         else:
             j = min(len(lines) - 1, i + 1)
             lines[i], lines[j] = lines[j], lines[i]
+        return "\n".join(lines)
+    if kind == "num_mangle":
+        # one numeric field of the document written in another (or a mangled) numeric format
+        cands = []
+        for li_, ln in enumerate(lines):
+            for wi_, w in enumerate(ln.split(" ")):
+                try:
+                    float(w)
+                    cands.append((li_, wi_))
+                except ValueError:
+                    pass
+        if not cands:
+            return text
+        li_, wi_ = cands[c["pos"] % len(cands)]
+        ws = lines[li_].split(" ")
+        ws[wi_] = NUM_FORMATS[c.get("wpos", 0) % len(NUM_FORMATS)] if c.get("cpos", 0) % 3 else ["inf", "-inf", "Infinity", "1e999", "nan", "NaN", "-0", "1e-999"][c.get("wpos", 0) % 8]
+        lines[li_] = " ".join(ws)
         return "\n".join(lines)
     # token level: tokens are whitespace separated words inside one line
     li = c["pos"] % max(1, len(lines))
@@ -411,7 +501,7 @@ class C16(Sim):
                 if rng.random() < 0.55:
                     mut = {"listed": rng.choice(LISTED), "seed": rng.randrange(1 << 30)}
                 else:
-                    mut = {"generic": pick_generic(rng), "seed": rng.randrange(1 << 30), "times": rng.choice([1, 1, 2, 3])}
+                    mut = with_lex(rng, {"generic": pick_generic(rng), "seed": rng.randrange(1 << 30), "times": rng.choice([1, 1, 2, 3])})
                 ops.append({"op": "corrupt_rule", "b": bi, "r": ri, "mut": mut})
                 rr = rng.random()
                 if rr < 0.3:
@@ -423,7 +513,7 @@ class C16(Sim):
                 if rng.random() < 0.6:
                     mut = {"listed": rng.choice(LISTED), "seed": rng.randrange(1 << 30)}
                 else:
-                    mut = {"generic": pick_generic(rng), "seed": rng.randrange(1 << 30), "times": rng.choice([1, 1, 2])}
+                    mut = with_lex(rng, {"generic": pick_generic(rng), "seed": rng.randrange(1 << 30), "times": rng.choice([1, 1, 2])})
                 ops.append({"op": "fresh_rule", "b": bi, "r": ri, "mut": mut, "via": rng.choice(["create", "importer", "importer_block", "create", "importer", "importer_block", "create_empty", "importer_block_empty"])})
             elif r < 0.44:
                 ops.append({"op": "rename_check", "b": bi, "r": ri, "pick": rng.randrange(8)})
@@ -447,9 +537,9 @@ class C16(Sim):
                 else:
                     for _ in range(rng.choice([1, 1, 1, 2, 3])):
                         kind = rng.choice(["line_delete", "line_duplicate", "line_swap", "tok_delete", "tok_duplicate", "tok_substitute",
-                                           "tok_substitute", "tok_swap", "tok_insert", "tok_insert", "char_flip", "byte_flip", "head_lost", "block_move", "block_drop"])
+                                           "tok_substitute", "tok_swap", "tok_insert", "tok_insert", "char_flip", "byte_flip", "head_lost", "block_move", "block_drop", "num_mangle", "num_mangle"])
                         ops.append({"op": "corrupt_store", "c": {"kind": kind, "pos": rng.randrange(256), "wpos": rng.randrange(16),
-                                                                 "cpos": rng.randrange(8), "byte": rng.choice([0, 9, 10, 13, 32, 35, 58, 127, 128, 192, 237, 255, rng.randrange(256)]), "word": rng.choice(WORDS + ["true", "false", "none", "Centroid", "General", "Triangle", "term:", "range:", "Engine:", "RuleBlock:", "OutputVariable:", "200", "Minimum", "Automatic", "First", "Highest", "Threshold", "Proportional", ">=", "2", "0.000"])}})
+                                                                 "cpos": rng.randrange(8), "byte": rng.choice([0, 9, 10, 13, 32, 35, 58, 127, 128, 192, 237, 255, rng.randrange(256)]), "word": rng.choice(WORDS + ["true", "false", "none", "Centroid", "General", "Triangle", "term:", "range:", "Engine:", "RuleBlock:", "OutputVariable:", "200", "Minimum", "Automatic", "First", "Highest", "Threshold", "Proportional", ">=", "2", "0.000"] + NUM_FORMATS + ["\u00a0", "\ufeff", "\u3000", "IF", "Then", "TRUE", "True", "rule :", "term:x", "range:0", "\t"])}})
                 ops.append({"op": "import_store"})
         if run == 0:
             # a fixed probe per seed: one rule whose first proposition is chained 1100 times
@@ -547,7 +637,9 @@ class C16(Sim):
                             words = mutate_generic(mr, words, mut["generic"], vocab, var_names)
                         mclass = "G:" + mut["generic"].split(":")[0]
                         st.hit("faults.rule_generic_" + mut["generic"].split(":")[0])
-                    text = " ".join(words)
+                    text = lexify(mr, words, mut.get("lex") if listed is None else None)
+                    if listed is None and mut.get("lex"):
+                        st.hit("faults.rule_lexical_" + mut["lex"])
                 was_loaded = rule.is_loaded()
                 before = rule_snap(rule)
                 others = all_rule_snaps(skip=(bi, ri))
@@ -688,7 +780,9 @@ class C16(Sim):
                     for _ in range(mut.get("times", 1)):
                         words = mutate_generic(mr, words, mut["generic"], vocab, var_names)
                     st.hit("faults.fresh_generic_" + mut["generic"].split(":")[0])
-                text = " ".join(words)
+                text = lexify(mr, words, mut.get("lex") if listed is None else None)
+                if listed is None and mut.get("lex"):
+                    st.hit("faults.fresh_lexical_" + mut["lex"])
                 others = all_rule_snaps()
                 exc = None
                 made = []
